@@ -540,6 +540,9 @@ class FiniteAutomaton:
                                             transition["label"],
                                             s_to)
         for node in graph.nodes:
+            if "is_start" in graph.nodes[node]:
+                # A state, even without transition
+                enfa.states.add(to_state(node))
             if graph.nodes[node].get("is_start", False):
                 enfa.add_start_state(node)
             if graph.nodes[node].get("is_final", False):
